@@ -166,7 +166,7 @@ func VerifC18Document() {
 	mo1 := &descriptorpb.MethodOptions{}
 	switch headerMode {
 	case 2:
-		verif.SetExt(mo1, http.E_MethodHeaders, &http.MethodHeaders{RequiredHeaders: []*http.Header{{Name: "X-Tenant", Type: "string", Required: false}}})
+		verif.SetExt(mo1, http.E_MethodHeaders, &http.MethodHeaders{RequiredHeaders: []*http.Header{{Name: "X-Tenant", Type: "integer", Required: false}}})
 	case 3:
 		verif.SetExt(mo1, http.E_MethodHeaders, &http.MethodHeaders{RequiredHeaders: []*http.Header{{Name: "X-Trace", Type: "string", Required: true}}})
 	}
@@ -207,6 +207,14 @@ func VerifC18Document() {
 					}
 				}
 				verif.Assert("C18/parameter-name-unique-per-location", dupAny == 1)
+				if p.In == "header" && p.Name == "X-Tenant" && headerMode == 2 && op.OperationId == "GetDoc" {
+					// the method-level declaration (optional, integer) replaces the service-level one
+					typ := ""
+					if p.Schema != nil && p.Schema.Schema() != nil && len(p.Schema.Schema().Type) == 1 {
+						typ = p.Schema.Schema().Type[0]
+					}
+					verif.Assert("C18/method-header-declaration-overrides-service-declaration", p.Required != nil && !*p.Required && typ == "integer")
+				}
 				if p.In != "path" {
 					continue
 				}
